@@ -1067,13 +1067,9 @@ fn c08_rejected(ctx: &Ctx, px: &[bool], width: usize, e: &BitmapConversionError,
                     class: format!("valid_symbol_rejected:{:?}", e),
                     detail: format!("{}: every finder/clock/alignment/fixed-corner module is as specified, yet parsing failed", s.name),
                 });
-            } else if !matches!(e, BitmapConversionError::Alignment | BitmapConversionError::Padding) {
-                o.violations.push(Violation {
-                    prop: "C08",
-                    class: format!("geometry_error_class:catalogue_dims_got_{:?}", e),
-                    detail: format!("{}: array has catalogue dimensions but was rejected with a geometry error", s.name),
-                });
             }
+            // (an array with catalogue dimensions and a damaged fixed pattern may be rejected with any
+            // error variant: the property only fixes the variant for width 0 / ragged / non-catalogue arrays)
         }
     }
 }
